@@ -1,5 +1,418 @@
 /-
-  Props/C11.lean — property theorems for C11 (stub; to be filled in).
+  Props/C11.lean — C11: equality, hash, copy, deepcopy and pickle are mutually coherent.
+
+  Model: Sem/EqHash.lean (`instEq` = `Structure.__eq__`, `hashKey` = `str(self)`, the string
+  `__hash__` hashes; `copyI` / `deepcopyI` / `pickleI`; `stepI` / `runI` / `run2` = the C03 mutation
+  machine on instances that know whether they are `_instantiated`).
+
+  Proved for all classes, instances and histories of the model:
+  * `instEq_fieldwise` — `==` is exactly field-wise `==` of the values read back;
+  * `instEq_refl` (unconditional), `instEq_symm`, `instEq_trans` on instances whose values satisfy
+    the representation invariants `okVal` (Lemmas/EqLemmas.lean shows they are necessary);
+  * `copy_eq`, `deepcopy_eq`, `pickle_eq_partial` (+ hash where it holds);
+  * `run2_frame`, `deepcopy_independent`, `unpickled_independent` — operations on one instance of a
+    pair never affect the other, for every interleaved history.
+  False of the code today, with kernel-checked counterexamples that the harness replays on the real
+  code as known findings: `a == b → hash(a) == hash(b)` (`eq_hash_statement_false`, six
+  `eq_hash_counterexample_*`), pickle round trip with additional properties
+  (`pickle_counterexample_extras`), hash of a deep copy with a re-ordered set
+  (`deepcopy_hash_counterexample`), an unpickled ImmutableStructure accepts assignment
+  (`unpickled_immutable_counterexample`).  `eq_hash_partial` proves the implication on the region
+  that excludes exactly those spellings.
 -/
+import TypedpyModel.Lemmas.EqLemmas
+import TypedpyModel.Lemmas.HashLemmas
+import TypedpyModel.Lemmas.CopyLemmas
+import TypedpyModel.Generated.Wrappers
+set_option linter.unusedVariables false
+set_option linter.unusedSimpArgs false
 namespace Typedpy.C11
+
+open PyVal (pyEq)
+
+/-! ### `==` agrees with field-wise equality of the values read back -/
+
+theorem lookup_mem' {α} (k : String) : ∀ (l : List (String × α)) (v : α),
+    lookup k l = some v → (k, v) ∈ l
+  | [], _, h => by simp [lookup] at h
+  | (k', w) :: rest, v, h => by
+    simp only [lookup] at h
+    by_cases hk : (k == k') = true
+    · simp only [hk, if_true, Option.some.injEq] at h
+      have : k = k' := by simpa using hk
+      subst this; subst h; simp
+    · simp only [hk, Bool.false_eq_true, if_false] at h
+      exact List.mem_cons_of_mem _ (lookup_mem' k rest v h)
+
+/-- a name that neither `__dict__` mentions reads back the same on both sides -/
+theorem getA_absent (d : Attrs) (a b : Inst) (k : String)
+    (ha : lookup k a.attrs = none) (hb : lookup k b.attrs = none) : getA d a k = getA d b k := by
+  simp only [getA, ha, hb]
+
+/-- **C11 (field-wise)**: `a == b` iff same class, every name (field, extra attribute, or neither)
+    reads back `==` on both, and the `_none_fields` agree -/
+theorem instEq_fieldwise (d : Attrs) (a b : Inst) :
+    instEq d a b = true ↔ FieldwiseEq d a b := by
+  unfold instEq FieldwiseEq
+  simp only [Bool.and_eq_true, beq_iff_eq, List.all_eq_true, List.mem_append]
+  constructor
+  · rintro ⟨⟨hc, hall⟩, hn⟩
+    refine ⟨hc, fun k => ?_, hn⟩
+    cases ha : lookup k a.attrs with
+    | some v => exact hall (k, v) (Or.inl (lookup_mem' k _ v ha))
+    | none =>
+      cases hb : lookup k b.attrs with
+      | some w => exact hall (k, w) (Or.inr (lookup_mem' k _ w hb))
+      | none => rw [getA_absent d a b k ha hb]; exact pyEq_refl _
+  · rintro ⟨hc, hall, hn⟩
+    exact ⟨⟨hc, fun kv _ => hall kv.1⟩, hn⟩
+
+/-! ### `==` is an equivalence on instances whose values satisfy the representation invariants -/
+
+theorem namesEq_refl (a : List String) : namesEq a a = true := by
+  simp [namesEq, List.all_eq_true]
+
+theorem namesEq_symm (a b : List String) : namesEq a b = namesEq b a := by
+  simp only [namesEq, Bool.and_comm]
+
+theorem namesEq_trans (a b c : List String) (h1 : namesEq a b = true) (h2 : namesEq b c = true) :
+    namesEq a c = true := by
+  simp only [namesEq, Bool.and_eq_true, List.all_eq_true, List.contains_eq_mem,
+    decide_eq_true_eq] at *
+  exact ⟨fun x hx => h2.1 x (h1.1 x hx), fun x hx => h1.2 x (h2.2 x hx)⟩
+
+/-- **C11 (reflexive)**, no side condition -/
+theorem instEq_refl (d : Attrs) (a : Inst) : instEq d a a = true :=
+  (instEq_fieldwise d a a).2 ⟨rfl, fun _ => pyEq_refl _, namesEq_refl _⟩
+
+/-- the instance's attribute values (and the field defaults) satisfy `okVal` -/
+def okInst (d : Attrs) (a : Inst) : Bool := okAttrs a.attrs && okAttrs d
+
+theorem okVal_getA (d : Attrs) (a : Inst) (k : String) (h : okInst d a = true) :
+    okVal (getA d a k) = true := by
+  simp only [okInst, Bool.and_eq_true, okAttrs_iff] at h
+  unfold getA
+  cases ha : lookup k a.attrs with
+  | some v => exact h.1 (k, v) (lookup_mem' k _ v ha)
+  | none =>
+    cases hd : lookup k d with
+    | some v => exact h.2 (k, v) (lookup_mem' k _ v hd)
+    | none => rfl
+
+/-- **C11 (symmetric)** -/
+theorem instEq_symm (d : Attrs) (a b : Inst) (ha : okInst d a = true) (hb : okInst d b = true) :
+    instEq d a b = instEq d b a := by
+  have key : ∀ a b : Inst, okInst d a = true → okInst d b = true → instEq d a b = true →
+      instEq d b a = true := by
+    intro a b ha hb h
+    obtain ⟨hc, hall, hn⟩ := (instEq_fieldwise d a b).1 h
+    exact (instEq_fieldwise d b a).2 ⟨hc.symm,
+      fun k => pyEq_symm _ (okVal_getA d a k ha) _ (okVal_getA d b k hb) (hall k),
+      by rw [namesEq_symm]; exact hn⟩
+  cases h1 : instEq d a b <;> cases h2 : instEq d b a <;> try rfl
+  · rw [key b a hb ha h2] at h1; cases h1
+  · rw [key a b ha hb h1] at h2; cases h2
+
+/-- **C11 (transitive)**: only the middle instance needs the invariant -/
+theorem instEq_trans (d : Attrs) (a b c : Inst) (hb : okInst d b = true)
+    (h1 : instEq d a b = true) (h2 : instEq d b c = true) : instEq d a c = true := by
+  obtain ⟨hc1, hall1, hn1⟩ := (instEq_fieldwise d a b).1 h1
+  obtain ⟨hc2, hall2, hn2⟩ := (instEq_fieldwise d b c).1 h2
+  exact (instEq_fieldwise d a c).2 ⟨hc1.trans hc2,
+    fun k => pyEq_trans _ _ _ (okVal_getA d b k hb) (hall1 k) (hall2 k),
+    namesEq_trans _ _ _ hn1 hn2⟩
+
+
+/-! ### `a == b → hash(a) == hash(b)` is false of the code today -/
+
+/-- the full-strength statement for a rendering `R` of Python's `str()` -/
+def eq_hash_statement (R : Render) : Prop :=
+  ∀ (d : Attrs) (a b : Inst), instEq d a b = true → hashKey R a = hashKey R b
+
+/-- an example rendering: a float prints its exact ratio (injective, never an int literal) -/
+def exR : Render :=
+  { float := fun q => toString q.num ++ "/" ++ toString q.den, other := fun _ => "?",
+    inlineCls := fun _ => false }
+
+/-- finding `eq-not-hash:int-vs-float`: `A(x=1) == A(x=1.0)`, printed `x = 1` / `x = 1.0` -/
+theorem eq_hash_counterexample_int_float :
+    instEq [] { cls := "A", attrs := [("x", .int 1)] } { cls := "A", attrs := [("x", .float ⟨1, 1⟩)] } = true
+    ∧ (hashKey exR { cls := "A", attrs := [("x", .int 1)] }
+        == hashKey exR { cls := "A", attrs := [("x", .float ⟨1, 1⟩)] }) = false := by decide
+
+/-- finding `eq-not-hash:bool-vs-int`: `A(x=True) == A(x=1)` -/
+theorem eq_hash_counterexample_bool_int :
+    instEq [] { cls := "A", attrs := [("x", .bool true)] } { cls := "A", attrs := [("x", .int 1)] } = true
+    ∧ (hashKey exR { cls := "A", attrs := [("x", .bool true)] }
+        == hashKey exR { cls := "A", attrs := [("x", .int 1)] }) = false := by decide
+
+/-- finding `eq-not-hash:dict-order`: `A(m={'a': 1, 'b': 2}) == A(m={'b': 2, 'a': 1})` -/
+theorem eq_hash_counterexample_dict_order :
+    instEq [] { cls := "A", attrs := [("m", .dict [(.str "a", .int 1), (.str "b", .int 2)])] }
+              { cls := "A", attrs := [("m", .dict [(.str "b", .int 2), (.str "a", .int 1)])] } = true
+    ∧ (hashKey exR { cls := "A", attrs := [("m", .dict [(.str "a", .int 1), (.str "b", .int 2)])] }
+        == hashKey exR { cls := "A", attrs := [("m", .dict [(.str "b", .int 2), (.str "a", .int 1)])] }) = false := by
+  decide
+
+/-- finding `eq-not-hash:set-order`: `A(s={0, 8}) == A(s={8, 0})` (colliding elements iterate in
+    insertion order) -/
+theorem eq_hash_counterexample_set_order :
+    instEq [] { cls := "A", attrs := [("s", .set false [.int 0, .int 8])] }
+              { cls := "A", attrs := [("s", .set false [.int 8, .int 0])] } = true
+    ∧ (hashKey exR { cls := "A", attrs := [("s", .set false [.int 0, .int 8])] }
+        == hashKey exR { cls := "A", attrs := [("s", .set false [.int 8, .int 0])] }) = false := by decide
+
+/-- finding `eq-not-hash:none-vs-absent`: `A(x=1, extra=None) == A(x=1)` -/
+theorem eq_hash_counterexample_none_absent :
+    instEq [] { cls := "A", attrs := [("x", .int 1), ("extra", .none)] } { cls := "A", attrs := [("x", .int 1)] } = true
+    ∧ (hashKey exR { cls := "A", attrs := [("x", .int 1), ("extra", .none)] }
+        == hashKey exR { cls := "A", attrs := [("x", .int 1)] }) = false := by decide
+
+/-- finding `eq-not-hash:set-vs-frozenset`: `A(s=set()) == A(s=frozenset())`; Python prints a
+    frozenset as `frozenset(…)`, typedpy prints a set as `{…}` -/
+theorem eq_hash_counterexample_set_frozenset :
+    instEq [] { cls := "A", attrs := [("s", .set false [])] } { cls := "A", attrs := [("s", .set true [])] } = true
+    ∧ (hashKey { exR with other := fun _ => "frozenset()" } { cls := "A", attrs := [("s", .set false [])] }
+        == hashKey { exR with other := fun _ => "frozenset()" } { cls := "A", attrs := [("s", .set true [])] }) = false := by
+  decide
+
+/-- the full statement fails for the example rendering -/
+theorem eq_hash_statement_false : ¬ eq_hash_statement exR := by
+  intro h
+  have h1 := h [] { cls := "A", attrs := [("x", .int 1)] } { cls := "A", attrs := [("x", .float ⟨1, 1⟩)] }
+    eq_hash_counterexample_int_float.1
+  have h2 := eq_hash_counterexample_int_float.2
+  rw [h1] at h2
+  simp at h2
+
+/-! ### copy -/
+
+/-- **C11 (copy)**: `copy.copy(x) == x` (both ways) and it prints / hashes like `x` -/
+theorem copy_eq (R : Render) (d : Attrs) (x : Inst) :
+    instEq d x (copyI x) = true ∧ instEq d (copyI x) x = true ∧ hashKey R (copyI x) = hashKey R x :=
+  ⟨instEq_refl d x, instEq_refl d x, rfl⟩
+
+/-! ### independence of two instances (frame) -/
+
+/-- **C11 (independent)**: in every interleaved history on a pair of instances each instance ends
+    exactly where its own operations alone take it, with exactly the outcomes they alone produce:
+    an operation on one instance is validated against and applied to that instance only.  (Value
+    semantics: that a deep / unpickled copy shares no mutable object with the original is what the
+    `pairs` suite establishes on the real code.) -/
+theorem run2_frame (tbl : List MethodRec) (O : Oracles) (c : ClassOpts) (fields : List (String × FieldDecl)) :
+    ∀ (h : List (Side × Op)) (p : Inst × Inst),
+      (run2 tbl O c fields p h).1 =
+        ((runI tbl O c fields p.1 (sideOf .orig h)).1, (runI tbl O c fields p.2 (sideOf .copy h)).1)
+      ∧ sideOf .orig (run2 tbl O c fields p h).2 = (runI tbl O c fields p.1 (sideOf .orig h)).2
+      ∧ sideOf .copy (run2 tbl O c fields p h).2 = (runI tbl O c fields p.2 (sideOf .copy h)).2
+  | [], p => by simp [run2, runI, sideOf]
+  | (.orig, op) :: rest, p => by
+    have ih := run2_frame tbl O c fields rest ((stepI tbl O c fields p.1 op).1, p.2)
+    simp only [run2, sideOf, List.filter, List.map, runI] at ih ⊢
+    simp only [show ((Side.orig == Side.orig) = true) from rfl, show ((Side.orig == Side.copy) = false) from rfl,
+      List.map] at ih ⊢
+    simp only [runI]
+    exact ⟨ih.1, by rw [ih.2.1], ih.2.2⟩
+  | (.copy, op) :: rest, p => by
+    have ih := run2_frame tbl O c fields rest (p.1, (stepI tbl O c fields p.2 op).1)
+    simp only [run2, sideOf, List.filter, List.map, runI] at ih ⊢
+    simp only [show ((Side.copy == Side.copy) = true) from rfl, show ((Side.copy == Side.orig) = false) from rfl,
+      List.map] at ih ⊢
+    simp only [runI]
+    exact ⟨ih.1, ih.2.1, by rw [ih.2.2]⟩
+
+theorem sideOf_map_copy (ops : List Op) :
+    sideOf .copy (ops.map (fun op => (Side.copy, op))) = ops ∧
+    sideOf .orig (ops.map (fun op => (Side.copy, op))) = [] := by
+  induction ops with
+  | nil => simp [sideOf]
+  | cons op rest ih =>
+    simp only [sideOf, List.map, List.filter] at ih ⊢
+    simp only [show ((Side.copy == Side.copy) = true) from rfl, show ((Side.copy == Side.orig) = false) from rfl,
+      List.map]
+    exact ⟨by rw [ih.1], ih.2⟩
+
+/-- **C11 (deepcopy independent)**: whatever history is applied to the copy, the original is
+    unchanged, and the copy goes through exactly the states and outcomes of that history run on it
+    alone -/
+theorem deepcopy_independent (tbl : List MethodRec) (O : Oracles) (c : ClassOpts)
+    (fields : List (String × FieldDecl)) (S : SetOrder) (x : Inst) (ops : List Op) :
+    let r := run2 tbl O c fields (x, deepcopyI c S x) (ops.map (fun op => (Side.copy, op)))
+    r.1.1 = x
+    ∧ r.1.2 = (runI tbl O c fields (deepcopyI c S x) ops).1
+    ∧ sideOf .copy r.2 = (runI tbl O c fields (deepcopyI c S x) ops).2 := by
+  intro r
+  have h := run2_frame tbl O c fields (ops.map (fun op => (Side.copy, op))) (x, deepcopyI c S x)
+  rw [(sideOf_map_copy ops).1, (sideOf_map_copy ops).2] at h
+  refine ⟨?_, ?_, h.2.2⟩
+  · have := congrArg Prod.fst h.1; simpa [runI] using this
+  · have := congrArg Prod.snd h.1; simpa using this
+
+/-- the same for an unpickled copy -/
+theorem unpickled_independent (tbl : List MethodRec) (O : Oracles) (c : ClassOpts)
+    (fields : List (String × FieldDecl)) (T : ClassTbl) (S : SetOrder) (x : Inst) (ops : List Op) :
+    let r := run2 tbl O c fields (x, pickleI T S x) (ops.map (fun op => (Side.copy, op)))
+    r.1.1 = x
+    ∧ r.1.2 = (runI tbl O c fields (pickleI T S x) ops).1
+    ∧ sideOf .copy r.2 = (runI tbl O c fields (pickleI T S x) ops).2 := by
+  intro r
+  have h := run2_frame tbl O c fields (ops.map (fun op => (Side.copy, op))) (x, pickleI T S x)
+  rw [(sideOf_map_copy ops).1, (sideOf_map_copy ops).2] at h
+  refine ⟨?_, ?_, h.2.2⟩
+  · have := congrArg Prod.fst h.1; simpa [runI] using this
+  · have := congrArg Prod.snd h.1; simpa using this
+
+/-! ### the unpickled copy is not `_instantiated` -/
+
+def exO : Oracles := { reMatch := fun _ _ => true }
+def exImm : ClassOpts := { name := "I", required := ["x"], addl := false, immutable := true, accepts := ["I"] }
+def exImmFields : List (String × FieldDecl) := [("x", .integer {})]
+def exImmInst : Inst := { cls := "I", attrs := [("x", .int 1)] }
+
+/-- finding `unpickled:immutable-setattr-unprotected`: assignment is refused on the instance and
+    accepted on its unpickled copy -/
+theorem unpickled_immutable_counterexample :
+    (stepI Generated.wrappers exO exImm exImmFields exImmInst (.setattr "x" (.int 2))).2 = .err .valueErr
+    ∧ (stepI Generated.wrappers exO exImm exImmFields (pickleI [("I", ["x"])] id exImmInst) (.setattr "x" (.int 2))).2 = .ok
+    ∧ instEq [] exImmInst (pickleI [("I", ["x"])] id exImmInst) = true
+    ∧ instEq [] exImmInst
+        (stepI Generated.wrappers exO exImm exImmFields (pickleI [("I", ["x"])] id exImmInst) (.setattr "x" (.int 2))).1
+        = false := by decide
+
+/-- finding `pickle-not-eq:extra-attrs`: `__getstate__` drops additional properties -/
+theorem pickle_counterexample_extras :
+    instEq [] { cls := "A", attrs := [("x", .int 1), ("extra", .int 5)] }
+      (pickleI [("A", ["x"])] id { cls := "A", attrs := [("x", .int 1), ("extra", .int 5)] }) = false := by
+  decide
+
+/-- finding `deepcopy-hash-differs:set-order` / `pickle-hash-differs:set-order`: a rebuilt set may
+    iterate in another order; the copy is `==` but prints differently -/
+theorem deepcopy_hash_counterexample :
+    instEq [] { cls := "A", attrs := [("s", .set false [.str "a", .int 3])] }
+      (deepcopyI { name := "A", required := [] } List.reverse { cls := "A", attrs := [("s", .set false [.str "a", .int 3])] }) = true
+    ∧ (hashKey exR { cls := "A", attrs := [("s", .set false [.str "a", .int 3])] }
+        == hashKey exR (deepcopyI { name := "A", required := [] } List.reverse
+            { cls := "A", attrs := [("s", .set false [.str "a", .int 3])] })) = false := by
+  decide
+
+/-! ### `a == b → hash(a) == hash(b)` on the region that excludes the findings -/
+
+/-- **C11 (eq ⇒ hash, partial)**: instances of one class that are `==` and spelled alike
+    (`sameSpellI`: same Python number types, same Set / Map iteration orders, same attribute names,
+    no Decimals) print — hence hash — alike, whatever the insertion order of their `__dict__`s and
+    for every rendering of floats / foreign objects that is a function of the value.
+    (`sameSpellI` alone already forces the conclusion; `heq` records that the region lies inside
+    the statement's domain.) -/
+theorem eq_hash_partial (R : Render) (hR : RenderRespects R) (d : Attrs) (a b : Inst)
+    (ha : keysDistinct (a.attrs.map (·.1)) = true) (hb : keysDistinct (b.attrs.map (·.1)) = true)
+    (heq : instEq d a b = true) (hs : sameSpellI a b = true) : hashKey R a = hashKey R b :=
+  hashKey_of_sameSpell R hR a b ha hb hs
+
+/-- non-vacuity: different `__dict__` order and different representations of one float are inside
+    the region; the instances are `==` and print alike -/
+theorem eq_hash_partial_example :
+    sameSpellI { cls := "A", attrs := [("x", .float ⟨1, 2⟩), ("m", .dict [(.str "a", .list [.int 1, .bool true])])] }
+               { cls := "A", attrs := [("m", .dict [(.str "a", .list [.int 1, .bool true])]), ("x", .float ⟨2, 4⟩)] } = true
+    ∧ instEq [] { cls := "A", attrs := [("x", .float ⟨1, 2⟩), ("m", .dict [(.str "a", .list [.int 1, .bool true])])] }
+               { cls := "A", attrs := [("m", .dict [(.str "a", .list [.int 1, .bool true])]), ("x", .float ⟨2, 4⟩)] } = true
+    ∧ (hashKey { exR with float := fun _ => "0.5" }
+          { cls := "A", attrs := [("x", .float ⟨1, 2⟩), ("m", .dict [(.str "a", .list [.int 1, .bool true])])] }
+        == hashKey { exR with float := fun _ => "0.5" }
+          { cls := "A", attrs := [("m", .dict [(.str "a", .list [.int 1, .bool true])]), ("x", .float ⟨2, 4⟩)] }) = true := by
+  decide
+
+/-- the findings are outside the region -/
+theorem eq_hash_region_excludes_findings :
+    sameSpellI { cls := "A", attrs := [("x", .int 1)] } { cls := "A", attrs := [("x", .float ⟨1, 1⟩)] } = false
+    ∧ sameSpellI { cls := "A", attrs := [("x", .bool true)] } { cls := "A", attrs := [("x", .int 1)] } = false
+    ∧ sameSpellI { cls := "A", attrs := [("s", .set false [.int 0, .int 8])] }
+                 { cls := "A", attrs := [("s", .set false [.int 8, .int 0])] } = false
+    ∧ sameSpellI { cls := "A", attrs := [("m", .dict [(.str "a", .int 1), (.str "b", .int 2)])] }
+                 { cls := "A", attrs := [("m", .dict [(.str "b", .int 2), (.str "a", .int 1)])] } = false
+    ∧ sameSpellI { cls := "A", attrs := [("x", .int 1), ("extra", .none)] } { cls := "A", attrs := [("x", .int 1)] } = false
+    ∧ sameSpellI { cls := "A", attrs := [("s", .set false [])] } { cls := "A", attrs := [("s", .set true [])] } = false
+    ∧ sameSpellI { cls := "A", attrs := [("x", .dec ⟨1, 1⟩)] } { cls := "A", attrs := [("x", .dec ⟨1, 1⟩)] } = false := by
+  decide
+
+/-! ### deepcopy and pickle -/
+
+theorem filter_all_true {α} (l : List α) : l.filter (fun _ => true) = l :=
+  List.filter_eq_self.2 (fun _ _ => rfl)
+
+theorem getA_map (d : Attrs) (f : PyVal → PyVal) (x : Inst) (k : String) (i : Bool) (n : List String) :
+    getA d { cls := x.cls, attrs := x.attrs.map (fun p => (p.1, f p.2)), instantiated := i, nones := n } k
+      = match lookup k x.attrs with
+        | some v => f v
+        | none => match lookup k d with
+          | some dv => dv
+          | none => .none := by
+  simp only [getA, lookup_map_val f k x.attrs]
+  cases lookup k x.attrs <;> rfl
+
+theorem instEq_map (d : Attrs) (f : PyVal → PyVal) (x : Inst) (i : Bool) (n : List String)
+    (hf : ∀ p ∈ x.attrs, pyEq p.2 (f p.2) = true) (hn : namesEq x.nones n = true) :
+    instEq d x { cls := x.cls, attrs := x.attrs.map (fun p => (p.1, f p.2)), instantiated := i, nones := n }
+      = true := by
+  refine (instEq_fieldwise d x _).2 ⟨rfl, fun k => ?_, hn⟩
+  rw [getA_map]
+  unfold getA
+  cases hl : lookup k x.attrs with
+  | some v => exact hf (k, v) (lookup_mem' k _ v hl)
+  | none => exact pyEq_refl _
+
+/-- **C11 (deepcopy)**: `copy.deepcopy(x) == x`, for every iteration order the rebuilt sets come
+    out in (class that does not ignore `None`, or an immutable class, which is returned as is) -/
+theorem deepcopy_eq (S : SetOrder) (hS : MemPreserving S) (c : ClassOpts) (d : Attrs) (x : Inst)
+    (hign : c.ignoreNone = false ∨ c.immutable = true) : instEq d x (deepcopyI c S x) = true := by
+  unfold deepcopyI
+  cases hi : c.immutable with
+  | true => simp only [if_true]; exact instEq_refl d x
+  | false =>
+    have hign' : c.ignoreNone = false := by
+      rcases hign with h | h
+      · exact h
+      · rw [hi] at h; cases h
+    simp only [Bool.false_eq_true, if_false, hign', Bool.and_false, Bool.false_and, Bool.not_false,
+      filter_all_true]
+    rw [pickleAttrs_eq_map [] S none x.attrs (fun _ _ => rfl)]
+    exact instEq_map d (pickleV [] S) x x.instantiated x.nones
+      (fun p _ => pyEq_pickleV [] S hS p.2 (keptV_nil p.2)) (namesEq_refl _)
+
+/-- … and it prints / hashes like `x` when the rebuilt sets keep their iteration order
+    (otherwise not: `deepcopy_hash_counterexample`) -/
+theorem deepcopy_hash_partial (R : Render) (c : ClassOpts) (x : Inst)
+    (hign : c.ignoreNone = false ∨ c.immutable = true) :
+    deepcopyI c id x = x ∧ hashKey R (deepcopyI c id x) = hashKey R x := by
+  have h : deepcopyI c id x = x := by
+    unfold deepcopyI
+    cases hi : c.immutable with
+    | true => simp
+    | false =>
+      have hign' : c.ignoreNone = false := by
+        rcases hign with h | h
+        · exact h
+        · rw [hi] at h; cases h
+      simp only [Bool.false_eq_true, if_false, hign', Bool.and_false, Bool.false_and, Bool.not_false,
+        filter_all_true]
+      rw [pickleAttrs_id [] none x.attrs ((keptAttrs_iff _ _ _).2 (fun p _ => ⟨rfl, keptV_nil p.2⟩))]
+  exact ⟨h, by rw [h]⟩
+
+/-- **C11 (pickle, partial)**: the unpickled copy `==` the original when no Structure in it carries
+    an additional property (`keptAttrs`; otherwise not: `pickle_counterexample_extras`) -/
+theorem pickle_eq_partial (T : ClassTbl) (S : SetOrder) (hS : MemPreserving S) (d : Attrs) (x : Inst)
+    (hk : keptAttrs T (lookup x.cls T) x.attrs = true) (hn : x.nones = []) :
+    instEq d x (pickleI T S x) = true := by
+  unfold pickleI
+  have hk' := (keptAttrs_iff _ _ _).1 hk
+  rw [pickleAttrs_eq_map T S _ x.attrs (fun p hp => (hk' p hp).1)]
+  exact instEq_map d (pickleV T S) x false []
+    (fun p hp => pyEq_pickleV T S hS p.2 (hk' p hp).2) (by rw [hn]; rfl)
+
+/-- … and prints / hashes like it when the rebuilt sets keep their iteration order -/
+theorem pickle_hash_partial (R : Render) (T : ClassTbl) (x : Inst)
+    (hk : keptAttrs T (lookup x.cls T) x.attrs = true) (hn : x.nones = []) :
+    hashKey R (pickleI T id x) = hashKey R x := by
+  unfold pickleI hashKey
+  simp only [pickleAttrs_id T _ x.attrs hk, hn]
+
 end Typedpy.C11
